@@ -26,6 +26,9 @@ func run(r *chk.Run) {
 	RunCodec(r)
 	// end-to-end half: malformed packets injected into a history served to the real Stream
 	e2.RunInjection(r)
+	// ... and well-formed events whose leading bytes take every value must pass
+	// the reader and the gate unchanged
+	e2.RunHeaderBytes(r)
 }
 
 func replay(kind string, input json.RawMessage) (bool, string) {
@@ -34,6 +37,10 @@ func replay(kind string, input json.RawMessage) (bool, string) {
 		return ReplayCodec(input)
 	case "injection":
 		return e2.ReplayInjection(input)
+	case "headerbytes":
+		return e2.ReplayHeaderBytes(input)
+	case "history":
+		return e2.ReplayHistory(kind, input)
 	}
 	return false, "unknown replay kind " + kind
 }
@@ -45,6 +52,18 @@ type GateCase struct {
 	Maria  bool   `json:"maria"`
 	Buf    []byte `json:"buf"`
 	Accept bool   `json:"accept"` // reference predicate: len >= 19 && length field == len
+	// Big, when > 0, stands for a buffer of Big bytes (too long to store): zero
+	// filled, type byte 30 (WRITE_ROWS v2), the length field = BigField.
+	Big      int    `json:"big,omitempty"`
+	BigField uint32 `json:"big_field,omitempty"`
+}
+
+func (c *GateCase) materialise() {
+	if c.Big > 0 && c.Buf == nil {
+		c.Buf = make([]byte, c.Big)
+		c.Buf[4] = 30
+		binary.LittleEndian.PutUint32(c.Buf[9:13], c.BigField)
+	}
 }
 
 func mk(maria bool, b []byte) replication.BinlogEvent {
@@ -81,6 +100,7 @@ func stripGoroutine(pan string) string {
 // CheckGate offers the buffer to IsValid and, when accepted, calls every
 // header accessor and predicate. It returns ("", "") or (clause, description).
 func CheckGate(c *GateCase) (clause, why string) {
+	c.materialise()
 	ev := mk(c.Maria, c.Buf)
 	var got bool
 	if pan := chk.Catch(func() { got = ev.IsValid() }); pan != "" {
@@ -160,6 +180,9 @@ func fail(r *chk.Run, c *GateCase, clause, why string) {
 		Replay: &cc,
 		Recheck: func() string {
 			cl, w := CheckGate(&cc)
+			if cc.Big > 0 {
+				cc.Buf = nil
+			}
 			if cl == "" {
 				return ""
 			}
@@ -288,6 +311,23 @@ func RunCodec(r *chk.Run) {
 	r.Sample("gate", map[string]interface{}{"len": 64, "length_field": "64 + 2^8", "oracle": "IsValid() = false"})
 	r.Sample("gate", map[string]interface{}{"len": 12, "length_field": "truncated after 3 bytes", "oracle": "IsValid() = false, no panic"})
 
+	// ---- A': events longer than one protocol packet (the driver joins the
+	// 16 MB pieces; the streamer legitimately sees such buffers) ----------------
+	for _, n := range []int{65535, 65536, 1<<24 - 2, 1<<24 - 1, 1 << 24, 1<<24 + 19, 1<<25 + 5} {
+		for _, d := range []int{0, -1, 1} {
+			for fl := 0; fl < 2; fl++ {
+				c := GateCase{Class: "big", Maria: fl == 1, Big: n, BigField: uint32(n + d), Accept: d == 0}
+				if cl, why := CheckGate(&c); cl != "" {
+					c.Buf = nil // the replay file carries the description, not 16 MB of zeros
+					fail(r, &c, cl, why)
+				}
+				c.Buf = nil
+				evals.Add(1)
+			}
+			distinct.Add(1)
+		}
+	}
+	r.Set("gate_big", "buffers of 65535, 65536, 2^24-2, 2^24-1, 2^24, 2^24+19, 2^25+5 bytes x length field {len, len-1, len+1} x 2 flavors")
 	// ---- B: well-formed events, truncated and extended ---------------------
 	events := wellFormed()
 	var nB atomic.Int64
